@@ -103,10 +103,11 @@ def sat_keys(view, icp, start=None):
     start point of a warm start for an instance at or after it)"""
     out = []
     p = view["id"][0]
+    forced = view.get("fsat", [])
     for pre in view["prereqs"]:
         for k, v in pre:
             apriori = k[0] < icp or (start is not None and k[0] < start <= p and k[0] != p)
-            if v and not apriori and k not in out:
+            if v and not apriori and k not in out and k not in forced:
                 out.append(k)
     return out
 
@@ -118,7 +119,8 @@ def tview(v, nm: Names, icp, start=None) -> str:
         v_flows=q.clist(q.cnat(f) for f in v["flows"]),
         v_sat=q.clist(nm.key(k) for k in sat_keys(v, icp, start)),
         v_outs=q.clist(nm.out(o) for o in v["outputs"]),
-        v_sn=q.cnat(v["submit_num"]))
+        v_sn=q.cnat(v["submit_num"]),
+        v_fsat=q.clist(nm.key(k) for k in v.get("fsat", [])))
 
 
 def events(scn, trace, nm: Names) -> list[str]:
@@ -128,6 +130,9 @@ def events(scn, trace, nm: Names) -> list[str]:
     building = None      # id of the proxy under construction inside spawn_task
     tracked = set()      # python ids of proxies returned by spawn_task (pool candidates);
                          # other TaskProxy objects (data-store ghost nodes ...) are not pool tasks
+    manual_seen = set()
+    removed = set()      # python ids of proxies that left the pool
+    current = {}         # instance id -> python id of its latest incarnation (spawned or restored)
     loading = False      # between boot(restart) and loaded: the pool is being reloaded from the DB
     smode = {"AUTO": "SAuto", "REQUEST_CLEAN": "SClean", "REQUEST_KILL": "SKill", "REQUEST_NOW": "SNow",
              "REQUEST_NOW_NOW": "SNowNow", "AUTO_ON_TASK_FAILURE": "SAuto"}
@@ -163,11 +168,52 @@ def events(scn, trace, nm: Names) -> list[str]:
             crashed = False
         if loading and k == "add":
             tracked.add(e["t"]["obj"])
+            current[tuple(e["t"]["id"])] = e["t"]["obj"]
+            removed.discard(e["t"]["obj"])      # python may reuse the id of a freed object
             out.append(f"ERestore {tview(e['t'], nm, icp, start)}")
             continue
         if k == "spawn":
             tracked.add(e["t"]["obj"])
-        if k in ("state", "output", "sat") and e.get("obj") not in tracked:
+            current[tuple(e["t"]["id"])] = e["t"]["obj"]
+            removed.discard(e["t"]["obj"])      # python may reuse the id of a freed object
+        if k == "remove":
+            removed.add(e["t"]["obj"])
+            if current.get(tuple(e["t"]["id"])) == e["t"]["obj"]:
+                del current[tuple(e["t"]["id"])]
+        if (k in ("state", "output", "sat", "force_sat", "manual") and e.get("obj") in removed
+                and current.get(tuple(e["id"]), e["obj"]) != e["obj"]):
+            # a removed proxy object, while a newer incarnation of the instance exists: callbacks that kept
+            # a reference to the old object (job submission / kill results) still update it
+            if k == "output":
+                for o in e["out"]:
+                    out.append(f"EStaleOutput {nm.tid(e['id'])} {nm.out(o)}")
+            elif k == "state" and e["new"][1] and not e["old"][1]:
+                out.append(f"EStaleHold {nm.tid(e['id'])}")
+            continue
+        if k == "transient":
+            t = e["t"]
+            tracked.add(t["obj"])
+            out.append(f"ETransient {nm.tid(t['id'])} {q.clist(q.cnat(f) for f in t['flows'])} "
+                       f"{q.clist(nm.out(o) for o in t['outputs'])}")
+            continue
+        if k in ("state", "output", "sat", "force_sat", "manual") and e.get("obj") not in tracked:
+            continue
+        if k == "manual":
+            if e["obj"] not in manual_seen:
+                manual_seen.add(e["obj"])
+                out.append(f"EManual {nm.tid(e['id'])}")
+            continue
+        if k == "state" and e.get("manual") and e["obj"] not in manual_seen:
+            manual_seen.add(e["obj"])
+            out.append(f"EManual {nm.tid(e['id'])}")
+        if k == "force_sat":
+            keys = [m for m in e["new"] if m[0] >= icp]
+            if keys:
+                out.append(f"EForceSat {nm.tid(e['id'])} {q.clist(nm.key(m) for m in keys)}")
+            continue
+        if k == "cmd_remove":
+            for i in e["ids"]:
+                out.append(f"ECmdRemove {nm.tid(i)}")
             continue
         if k == "spawn_begin":
             building = e["id"]
@@ -180,6 +226,9 @@ def events(scn, trace, nm: Names) -> list[str]:
             t = e["t"]
             out.append(f"ESpawn {nm.tid(t['id'])} {q.clist(q.cnat(f) for f in t['flows'])} "
                        f"{q.clist(nm.key(x) for x in sat_keys(t, icp, start))} {q.cbool(t['held'])}")
+            if t["status"] != "waiting" or t["outputs"] or t["submit_num"]:
+                out.append(f"ESpawnHist {nm.tid(t['id'])} {STATUS[t['status']]} "
+                           f"{q.clist(nm.out(o) for o in t['outputs'])} {q.cnat(t['submit_num'])}")
         elif k == "add":
             out.append(f"EAdd {nm.tid(e['t']['id'])}")
         elif k == "sat":
@@ -194,7 +243,8 @@ def events(scn, trace, nm: Names) -> list[str]:
                 out.append(f"EOutput {nm.tid(e['id'])} {nm.out(o)}")
         elif k == "state":
             st, h, qd, r = e["new"]
-            out.append(f"EState {nm.tid(e['id'])} {STATUS[st]} {q.cbool(h)} {q.cbool(qd)} {q.cbool(r)}")
+            ctor = "EStateForced" if e.get("forced") else "EState"
+            out.append(f"{ctor} {nm.tid(e['id'])} {STATUS[st]} {q.cbool(h)} {q.cbool(qd)} {q.cbool(r)}")
         elif k == "release_begin":
             out.append("EReleaseBegin")
         elif k == "release":
